@@ -1,6 +1,6 @@
 """Role-based lookup of the solver's functions and shared helpers for the
 search rules (C01-C05, C22-C24)."""
-from sym import Walker, strip, show, mentions, TRANSPARENT, CLONE
+from sym import Walker, strip, show, mentions, unclone, TRANSPARENT, CLONE
 
 NODE_TY = "solution_node::SolutionNode"
 # private functions the solver rules name themselves (never inlined into their callers)
@@ -191,8 +191,9 @@ def outcome_of(path, res):
     """How the Option-valued result `res` (a provenance term) was found to be on this path:
     "Some", "None", or None when the path never examined it.  Understands `match`, `if let`,
     `is_some()` / `is_none()` tests."""
+    res0 = unclone(res)
     for c, v, bb in path.decisions:
-        if c == ("variant", res) and v in ("Some", "None"):
+        if c[0] == "variant" and v in ("Some", "None") and (c[1] == res or unclone(c[1]) == res0):
             return v
     for e in path.events:
         if e["k"] != "branch" or e["cond"][0] == "variant":
@@ -200,7 +201,7 @@ def outcome_of(path, res):
         c, neg = e["cond"], False
         while c[0] == "unop" and c[1] == "Not":
             c, neg = c[2], not neg
-        if c[0] == "call" and len(c[2]) == 1 and strip(c[2][0]) == res:
+        if c[0] == "call" and len(c[2]) == 1 and (strip(c[2][0]) == res or unclone(c[2][0]) == res0):
             val = (e["value"] is True) != neg
             if c[1].endswith("::is_some"):
                 return "Some" if val else "None"
